@@ -196,7 +196,7 @@ func (engC19) Runs(tier string) int {
 }
 func (engC19) ProcessStateful() bool { return true }
 func (engC19) Rule() string {
-	return "each run is a registration history over a per-run pool of up to 6 application-style names (plain, mixed case with a space, non-ASCII, containing a dot, upper case, single letter) with overwrites, interleaved with probe steps; two thirds of the runs are sequential histories, one third have a second task registering concurrently under the scheduler while the first probes. At every probe, in the registry state reached: ListStyles() is sorted and contains the four sub-packages, the six built-ins and every registered name (and, when nothing is in flight, no unregistered pool name); every listed name of this run constructs with auto.New and renders without error, with the registered decoration's glyphs; each sub-package name in 4 case variants, alone and with a seeded trailing section, yields that renderer and identical output; NAME and texttable.NAME yield identical text-table output, equal to texttable with SetDecorationNamed(NAME); texttable (any case) renders like the default; unknown names ('', unknown, texttable.unknown, 'csvx', 'x.csv') yield an error and no text. The style-grammar clauses are plain enumeration inside each reached state (said so in DESIGN.md section 3.10). Non-trivial = at least one probe after at least one registration; distinct = distinct (history, interleaving) hashes."
+	return "each run is a registration history over a per-run pool of up to 6 application-style names (plain, mixed case with a space, non-ASCII, containing a dot, containing control characters and invalid UTF-8, longer than 64 bytes) with overwrites, interleaved with probe steps; two thirds of the runs are sequential histories, one third have a second task registering concurrently under the scheduler while the first probes. At every probe, in the registry state reached: ListStyles() is sorted and contains the four sub-packages, the six built-ins and every registered name (and, when nothing is in flight, no unregistered pool name); every listed name of this run constructs with auto.New and renders without error, with the registered decoration's glyphs; each sub-package name in 4 case variants, alone and with a seeded trailing section, yields that renderer and identical output; NAME and texttable.NAME yield identical text-table output, equal to texttable with SetDecorationNamed(NAME); texttable (any case) renders like the default; unknown names ('', unknown, texttable.unknown, 'csvx', 'x.csv', 'texttablex', 'TextTable2', trailing sections with a newline or NUL) yield an error and no text. The style-grammar clauses are plain enumeration inside each reached state (said so in DESIGN.md section 3.10). Non-trivial = at least one probe after at least one registration; distinct = distinct (history, interleaving) hashes."
 }
 func (engC19) Assumptions() []string {
 	return []string{
@@ -309,7 +309,7 @@ func (engC16) RaceRuns(tier string) int {
 }
 func (engC16) ProcessStateful() bool { return true }
 func (engC16) Rule() string {
-	return "each run has 2-4 simulated caller tasks that each own a table and its wrappers: a seeded build script (SimItems, properties, logging callbacks) followed by 2-6 renders over all formats, decorations and routes (Render(), RenderTo(SimWriter), auto), plus optionally one task that keeps reading the decoration registry and auto.ListStyles() and registers names nobody renders with. Prong A: the tasks are real goroutines parked at every seam crossing (each Write, each callback invocation, each item method call, each row-class call, each registry lock boundary) and a seeded schedule decides who proceeds; every output and the final table snapshot of every task must equal what the same task script produces when executed alone. Prong B: the same task scripts run as truly parallel goroutines with no scheduler under the Go race detector (x_race_* keys). Non-trivial = at least two table-owning tasks rendered and at least one context switch happened inside a render; distinct = distinct interleavings (hash of the (task, park site) sequence) x scripts."
+	return "each run has 2-4 simulated caller tasks that each own a table and its wrappers: a seeded build script (SimItems, properties, logging callbacks; often a shared template: one cell value carrying nine callbacks, one []error of 11+ entries, one list of items, copied into every task and extended there) followed by 2-6 renders over all formats, decorations and routes (Render(), RenderTo(SimWriter), auto), plus optionally one task that keeps reading the decoration registry and auto.ListStyles() and registers names nobody renders with. Prong A: the tasks are real goroutines parked at every seam crossing (each Write, each callback invocation, each item method call, each row-class call, each registry lock boundary) and a seeded schedule decides who proceeds; every output and the final table snapshot of every task must equal what the same task script produces when executed alone. Prong B: the same task scripts run as truly parallel goroutines with no scheduler under the Go race detector (x_race_* keys). Non-trivial = at least two table-owning tasks rendered and at least one context switch happened inside a render; distinct = distinct interleavings (hash of the (task, park site) sequence) x scripts."
 }
 func (engC16) Annotate(cov map[string]interface{}) {
 	cov["distinct_measure"] = "distinct_nontrivial counts distinct interleavings: hash of the (task, park site) sequence chosen by the scheduler, xor the script hash"
